@@ -517,6 +517,156 @@ func TestPropGeometry(t *testing.T) {
 	})
 }
 
+// ---------------------------------------------------------------- concurrent callers
+
+// bigRing: 20..300 vertices winding around and through the box.
+func bigRing(t *rapid.T, lattice bool, box orb.Bound) orb.Ring {
+	n := rapid.IntRange(20, 300).Draw(t, "n")
+	ps := make([]orb.Point, n)
+	star := rapid.Bool().Draw(t, "star")
+	cx, cy := (box.Min[0]+box.Max[0])/2, (box.Min[1]+box.Max[1])/2
+	for i := range ps {
+		switch {
+		case star: // radius alternating in and out of the box
+			a := 2 * math.Pi * (float64(i) + rapid.Float64Range(0, 0.8).Draw(t, "jit")) / float64(n)
+			r := rapid.Float64Range(0.2, 5).Draw(t, "rad")
+			ps[i] = orb.Point{cx + r*math.Cos(a), cy + r*math.Sin(a)}
+			if lattice {
+				ps[i] = orb.Point{math.Round(ps[i][0]*2) / 2, math.Round(ps[i][1]*2) / 2}
+			}
+		case lattice:
+			ps[i] = orb.Point{float64(rapid.IntRange(0, 24).Draw(t, "x")) / 2, float64(rapid.IntRange(0, 24).Draw(t, "y")) / 2}
+		default:
+			ps[i] = orb.Point{rapid.Float64Range(-2, 8).Draw(t, "x"), rapid.Float64Range(-2, 8).Draw(t, "y")}
+		}
+	}
+	return closeRing(ps)
+}
+
+// drawBigCase: rings, polygons, multi-polygons and collections made of big rings
+// (so that one clip call lasts long enough to overlap with others), or an ordinary case.
+func drawBigCase(t *rapid.T) Case {
+	switch rapid.IntRange(0, 7).Draw(t, "bigkind") {
+	case 0:
+		c, _ := drawRingCase(t)
+		return c
+	case 1:
+		c, _ := drawGeometryCase(t)
+		return c
+	}
+	var c Case
+	c.QSeed = rapid.Uint64().Draw(t, "qseed")
+	lattice := rapid.Bool().Draw(t, "lattice")
+	var box orb.Bound
+	if lattice {
+		x0 := rapid.IntRange(1, 9).Draw(t, "bx0")
+		x1 := rapid.IntRange(x0+1, 11).Draw(t, "bx1")
+		y0 := rapid.IntRange(1, 9).Draw(t, "by0")
+		y1 := rapid.IntRange(y0+1, 11).Draw(t, "by1")
+		box = orb.Bound{Min: orb.Point{float64(x0), float64(y0)}, Max: orb.Point{float64(x1), float64(y1)}}
+	} else {
+		f := func(lo, hi float64, l string) float64 { return rapid.Float64Range(lo, hi).Draw(t, l) }
+		box = orb.Bound{Min: orb.Point{f(0, 3, "bx0"), f(0, 3, "by0")}, Max: orb.Point{f(3.01, 6, "bx1"), f(3.01, 6, "by1")}}
+	}
+	c.Box = gen.FromBound(box)
+	c.SplitX = gen.F((box.Min[0] + box.Max[0]) / 2)
+	c.SplitY = gen.F((box.Min[1] + box.Max[1]) / 2)
+	poly := func() orb.Polygon {
+		p := orb.Polygon{}
+		for i, k := 0, rapid.IntRange(1, 3).Draw(t, "rings"); i < k; i++ {
+			p = append(p, bigRing(t, lattice, box))
+		}
+		return p
+	}
+	switch rapid.IntRange(0, 3).Draw(t, "shape") {
+	case 0:
+		c.G = gen.G{V: bigRing(t, lattice, box)}
+	case 1:
+		c.G = gen.G{V: poly()}
+	case 2:
+		mp := orb.MultiPolygon{}
+		for i, k := 0, rapid.IntRange(1, 3).Draw(t, "polys"); i < k; i++ {
+			mp = append(mp, poly())
+		}
+		c.G = gen.G{V: mp}
+	default:
+		col := orb.Collection{}
+		for i, k := 0, rapid.IntRange(1, 4).Draw(t, "members"); i < k; i++ {
+			switch rapid.IntRange(0, 3).Draw(t, "member") {
+			case 0:
+				col = append(col, bigRing(t, lattice, box))
+			case 1:
+				col = append(col, poly())
+			case 2:
+				col = append(col, orb.LineString(bigRing(t, lattice, box)))
+			default:
+				col = append(col, orb.MultiPoint(bigRing(t, lattice, box)))
+			}
+		}
+		c.G = gen.G{V: col}
+	}
+	return c
+}
+
+// concurrentGroup: every case is first checked alone (full oracle), its
+// results are recorded, and then all cases are clipped at the same time on
+// their own goroutines: the clip functions depend on their arguments only, so
+// every concurrent result must be bit-identical to the one computed alone.
+// Returns whether each case was cut (the non-trivial rule).
+func concurrentGroup(cs []Case) (cut []bool, f func(i int) error, err error) {
+	refs := make([][]orb.Geometry, len(cs))
+	cut = make([]bool, len(cs))
+	for i, c := range cs {
+		if err := stats.Guard(func() error { return checkCase(c) }); err != nil {
+			return nil, nil, fmt.Errorf("case %d of the group fails on its own: %w", i, err)
+		}
+		cut[i] = lastCut
+		refs[i] = outputs(c)
+	}
+	reps := make([]int, len(cs))
+	for i, c := range cs {
+		_, bits := gen.Flatten(c.G.V)
+		reps[i] = max(1, min(100, 600/(len(bits)+1))) // short calls are repeated: many entries per round
+	}
+	return cut, func(i int) error {
+		for k := 0; k < reps[i]; k++ {
+			if err := sameOutputs(outputs(cs[i]), refs[i]); err != nil {
+				return err
+			}
+		}
+		return nil
+	}, nil
+}
+
+func TestPropConcurrent(t *testing.T) {
+	assumptions()
+	stats.Check(t, 1600, 50000, func(rt *rapid.T) {
+		n := rapid.IntRange(2, 8).Draw(rt, "goroutines")
+		cs := make([]Case, n)
+		for i := range cs {
+			cs[i] = drawBigCase(rt)
+		}
+		stats.Class(fmt.Sprintf("concurrent:%d goroutines", n))
+		cut, f, err := concurrentGroup(cs)
+		if err != nil {
+			stats.Try(rt, "TestPropConcurrent", cs, func() error { return err })
+		}
+		nt := 0
+		for _, b := range cut {
+			if b {
+				nt++
+			}
+		}
+		if nt >= 2 {
+			stats.NonTrivial("conc:" + gen.JSON(cs))
+			if stats.WantSample("concurrent") {
+				stats.Sample("concurrent", cs)
+			}
+		}
+		stats.TryParallel(rt, "TestPropConcurrent", cs, n, 12, f)
+	})
+}
+
 // TestEnumTriangles: every closed three-vertex list on the 5x5 integer lattice
 // (degenerate ones included) against the 9 boxes with corners on {1,2,3}^2.
 func TestEnumTriangles(t *testing.T) {
@@ -564,6 +714,23 @@ func TestReplay(t *testing.T) {
 	_, raw, ok := stats.Replaying()
 	if !ok {
 		t.Skip("no replay file")
+	}
+	if name, _, _ := stats.Replaying(); name == "TestPropConcurrent" {
+		var cs []Case
+		if err := json.Unmarshal(raw, &cs); err != nil {
+			t.Fatal(err)
+		}
+		_, f, err := concurrentGroup(cs)
+		if err != nil {
+			t.Fatalf("replayed concurrent group: %v", err)
+		}
+		for k := 0; k < 20; k++ {
+			if err := stats.ParallelErr(len(cs), 200, f); err != nil {
+				t.Fatalf("replayed concurrent group still fails: %v", err)
+			}
+		}
+		fmt.Println("replayed concurrent group passes")
+		return
 	}
 	var c Case
 	if err := json.Unmarshal(raw, &c); err != nil {
